@@ -2,6 +2,23 @@
 everything it imports, refuse sorry/axioms, audit axioms of every property theorem."""
 from .build import (ALLOWED_AXIOMS, audit_axioms, forbidden_tokens, lake_build, theorems_of)
 from .common import LEAN, log
+import re
+
+
+def import_closure(modules):
+    """Lean source files (under lean/) reachable through `import OVM.*` / `import Judge.*`."""
+    seen, todo = {}, list(modules)
+    while todo:
+        m = todo.pop()
+        if m in seen:
+            continue
+        f = LEAN / (m.replace(".", "/") + ".lean")
+        if not f.exists():
+            continue
+        seen[m] = f
+        for im in re.findall(r"^import\s+((?:OVM|Judge)\.[\w.]+)", f.read_text(), re.M):
+            todo.append(im)
+    return sorted(seen.values())
 
 
 def proof_stage(ctx, pid, gen=(), extra_targets=("ovmjudge",), min_theorems=1):
@@ -23,7 +40,7 @@ def proof_stage(ctx, pid, gen=(), extra_targets=("ovmjudge",), min_theorems=1):
         errs = [l for l in lg.splitlines() if "error" in l][:20]
         res["failures"].append("lake build %s failed: %s" % (module, " | ".join(errs)))
         return res
-    hits = forbidden_tokens()
+    hits = forbidden_tokens(import_closure([module, "Judge.Main"]))
     if hits:
         res["ok"] = False
         res["failures"].append("forbidden tokens: " + "; ".join(hits[:10]))
